@@ -26,13 +26,14 @@ def remove {α : Type} (key : α → List Nat) (k : List Nat) (l : List α) : Li
 -- ---------------------------------------------------------------------------------------------
 -- bank (single denom). `transfer` is the only operation: the core modules never mint or burn.
 
-def getBal (b : List (Nat × Int)) (a : Nat) : Int :=
-  match b.find? (fun x => x.1 == a) with
-  | some x => x.2
-  | none => 0
+def getBal : List (Nat × Int) → Nat → Int
+  | [], _ => 0
+  | (k, w) :: rest, a => if k = a then w else getBal rest a
 
-def setBal (b : List (Nat × Int)) (a : Nat) (v : Int) : List (Nat × Int) :=
-  upsert (fun x => [x.1]) (a, v) b
+def setBal : List (Nat × Int) → Nat → Int → List (Nat × Int)
+  | [], a, v => [(a, v)]
+  | (k, w) :: rest, a, v =>
+    if k = a then (a, v) :: rest else (k, w) :: setBal rest a v
 
 /-- SendCoins: fails on a negative amount (sdk.NewCoin panics → the message fails) and on insufficient funds;
     a zero amount is a no-op (empty Coins). -/
